@@ -71,6 +71,12 @@ CHECKS = {
         "the dot-file rule and sorted matches, quote removal. TLC evaluates it on every word x environment (123k in quick) and the driver compares count, order and contents with brush's arguments (printf %s\\0) and `y=word`.",
    note="Trusted: TLC, bash 5.2.15 (a (word, environment) counts only if bash reproduces the model; 0.4% excluded, mostly bash's own ${e:-$@} quirk), C.UTF-8. Two recorded findings pinned by known_failure cases (brace words re-joined with blanks; \"$*\" with empty IFS).",
    ref="DESIGN.md section 6 C05"),
+ "C07": dict(level=MC, thorough=True, tech="TLA+ Arith.tla (token-level recursive-descent reader with bash's precedence table, evaluator threading the variable environment) over Word64.tla (two's-complement 64-bit words as byte sequences: wrapping add/mul, restoring division, shifts, bitwise, power) evaluated by TLC on families of token sequences; each replayed in brush with bash audit in $(( )), (( )), let, subscripts, offsets, declare -i",
+   text="Parse(toks) is the tree bash builds; Eval threads assignments and ++/-- left to right with short-circuit and recursive evaluation of variable contents; literals are digit sequences in bases 2..64 folded with wrap-around. "
+        "TLC evaluates ~43k expressions in quick (all operator pairs without parentheses, all 20 binary operators over 28 boundary operands, unary/assignment/increment/conditional mixes, malformed inputs, depth-3 trees); the driver renders each with "
+        "minimal spacing, wide spacing and the model's full parenthesisation and compares value, status and the variables afterwards.",
+   note="Trusted: TLC, bash 5.2.15 (audit), Word64.tla (its Add/Mul/Div are cross-checked against bash through every row). Shift counts outside 0..63 are C-undefined and not judged. Four recorded findings (integer attribute, (( )) error flow, ?: in a substring offset, `c ? a : y=2`).",
+   ref="DESIGN.md section 6 C07"),
  "C06": dict(level=MC, thorough=True, tech="TLA+ ParamOps.tla (substring, prefix/suffix removal stated declaratively over Glob.tla's Match, replacement, case modification, default/assign/alternative/error operators) evaluated exhaustively by TLC; every (value, operator) pair replayed in brush with bash audit",
    text="ParamOps.tla defines each operator's result; TLC evaluates every value of <= 3 characters (blanks, newline, glob character, multi-byte) x every operator instance (offsets/lengths over negative, zero, "
         "in-range and out-of-range integers; every pattern of <= 2 tokens) and checks the declarative shortest/longest clause (RemovalSound) and SubstrSound on every value; the 112k results are compared with the real shell's.",
